@@ -36,7 +36,7 @@ MANIFEST = {
                  'points; compared with a reference interpreter and with the '
                  'concatenation of the renderings of the two halves',
     'text': 'All token strings of length <= 3 (quick) / <= 4 (thorough) over '
-            'a 22-token near-tag alphabet that an independent conservative '
+            'a 25-token near-tag alphabet that an independent conservative '
             'locator calls tag-free must render to themselves (HTML and '
             'String).  All templates with <= 2 (quick) / <= 3 (thorough) '
             'tags, depth <= 2, over seven tag kinds, with every text slot '
@@ -65,7 +65,7 @@ CASE_CPU_SECONDS = 300.0
 FREE_TOK = {
     'HTML': ['<', '<d', '<dtml', '<dtml-', '</dtml-', '<!--', '<!--#', '-->',
              '>', '&', '&dtml', '&dtml-', '&dtml.', ';', '%', '%(', ')',
-             ')s', '"', '\n', ' ', 'x'],
+             ')s', '"', '\n', ' ', 'x', '&dtml-x', '&dtml.q-x', '\r'],
     'String': ['%', '%(', ')', ')s', ')[', ')]', '%%', '(', 'x)', '<', '<dtml-',
                '>', '&dtml-', ';', '"', '\n', ' ', 'x', '[', ']', 's', '!'],
 }
